@@ -19,6 +19,8 @@ META = dict(
              kind_free_text="child process executes a generated workload and SIGKILLs itself at the n-th persistent mutation (hook); parent enumerates n and judges the recovered state"),
         dict(name="faults", path="harness/seq/faults.go", serves_properties=["C10"],
              kind_free_text="fault injection by generated plan: failing/cancelling source readers, ENOSPC (full/partial) at File.Write via hook, per-root free space, failing gRPC stream"),
+        dict(name="detsched", path="harness/detsync (scheduler), tools/rewrite (source rewriter), harness/det (programs, linearizability oracle)", serves_properties=["C06", "C07", "C08", "C12", "C16"],
+             kind_free_text="schedule-owning engine: fs_db's sync/atomic/go/select/time.After are redirected to a cooperative scheduler; the schedule (forced preemptions or a random-walk tape) is part of the generated case; small-scope exhaustive enumeration + rapid generation"),
         dict(name="race", path="harness/seq/race.go", serves_properties=["C15"],
              kind_free_text="generated concurrent client programs in a child process of a -race build; the Go race detector is the oracle"),
     ],
@@ -69,6 +71,21 @@ PER_CHECK = {
     "C15": _e1("race", "property-based generation of concurrent client programs (rapid), each run in a -race child process; oracle = Go race detector (sanitizer), reports keyed by function pair",
                "Generated 3-8 goroutine programs over one handle (inline cold/warm, and through the gRPC server) run on the unmodified primitives under the race detector. Exploration of schedules the Go runtime happens to produce.",
                "DESIGN.md section 4, C15", "the race detector sees only races exposed by the executed schedule"),
+    "C06": _e1("detsched", "property-based testing over generated SCHEDULES: concurrent client programs on the real code under a cooperative scheduler (sync rewritten), small-scope exhaustive single preemptions + rapid-generated programs x schedules; oracle = linearizability search against the reference model",
+               "The harness owns the scheduler, so an interleaving is a generated, replayable value. Catalogue programs are explored exhaustively at preemption bound 1 (all client rotations); random programs with 0-4 preemptions or random-walk tapes beyond. Exploration: exhaustive only within that small scope.",
+               "DESIGN.md sections 2.4 and 4, C06", "trusts harness/detsync (self-tested on known-racy programs), the source rewriter, the reference model and the linearizability search (harness/det/lin.go); Badger/omap/files are atomic from the scheduler's view"),
+    "C07": _e1("detsched", "property-based testing over generated schedules (cooperative scheduler): concurrent Commit calls of snapshot transactions with intersecting write sets, exhaustive single preemptions + generated programs x schedules; oracle = linearizability against the reference model",
+               "Under the model two intersecting snapshot commits cannot both succeed in any order, so a lost update has no linearization. Exhaustive at preemption bound 1 for the catalogue, random beyond.",
+               "DESIGN.md sections 2.4 and 4, C07", "as C06"),
+    "C08": _e1("detsched", "property-based testing over generated schedules (cooperative scheduler): snapshot readers vs multi-key committers, writers, Begins and the collector; oracle = linearizability with Begin as the snapshot point",
+               "A reader that sees part of a commit, or whose re-read changes, has no linearization. Exhaustive at preemption bound 1 for the catalogue, random beyond.",
+               "DESIGN.md sections 2.4 and 4, C08", "as C06"),
+    "C12": _e1("detsched", "property-based testing over generated write-size sequences x schedules (cooperative scheduler): API level on the real stack and component level on the read-writer with ALL schedules up to 2-3 forced preemptions",
+               "Close returning is decided exactly (a parked Close with nothing runnable is a deadlock verdict); content equality through Get / through the consumer. The component-level part is exhaustive up to the stated preemption bound.",
+               "DESIGN.md sections 2.4 and 4, C12", "as C06; the component-level consumer mirrors pkg/inline/db/create.go"),
+    "C16": _e1("detsched", "property-based testing over generated Send/Stop/Run programs x schedules on the REAL worker pool source under the cooperative scheduler; oracle = execution counters and logical timestamps",
+               "All schedules with <= 1 (quick) / <= 2 (thorough) forced preemptions of 9 catalogue programs plus up to 10^6 random-walk tapes; quiescence is exact. Exploration.",
+               "DESIGN.md sections 2.4 and 4, C16", "trusts harness/detsync and the rewriter; virtual timers over-approximate real time"),
     "C17": _e1("seq", "model-based stateful property testing (rapid): burst histories over 1-3 roots and all clamped directory limits, directory-tree invariants after every step, reuse probe",
                "Bursts fill directories to the limit; a walk after every step checks placement, per-root availability and the entry bound; a directory that regained room must be reused within 64k writes. Exploration.",
                "DESIGN.md section 4, C17", _MODEL_NOTE),
